@@ -232,8 +232,13 @@ carquet_status_t carquet_read_dictionary_page(
             dict_remaining -= entry_size;
         }
     } else {
-        /* Fixed size values */
-        size_t dict_size = value_size * header->num_values;
+        /* Fixed size values: the page must actually hold num_values of them */
+        if (header->num_values < 0 ||
+            (value_size > 0 && (size_t)header->num_values > page_size / value_size)) {
+            CARQUET_SET_ERROR(error, CARQUET_ERROR_DECODE, "Dictionary page smaller than its value count");
+            return CARQUET_ERROR_DECODE;
+        }
+        size_t dict_size = value_size * (size_t)header->num_values;
         reader->dictionary_data = malloc(dict_size);
         if (!reader->dictionary_data) {
             CARQUET_SET_ERROR(error, CARQUET_ERROR_OUT_OF_MEMORY, "Failed to allocate dictionary");
